@@ -10,7 +10,7 @@
 (* plus arguments, result and projected post-state.                        *)
 (*                                                                         *)
 (* Verdicts are total: a trace specification never fails on a bad event;   *)
-(* it prints  <<"REJECT", tid, line, clause>>  and skips to the next       *)
+(* it prints a JSON record {verdict: "REJECT", line, clause} and skips to the next       *)
 (* trace, so that one defect does not hide the rest of the file.  When the *)
 (* whole file has been consumed it prints  <<"DONE", lines, rejects>>.     *)
 (* JSON null never appears (the Json module rejects it): absent values     *)
@@ -21,7 +21,9 @@ EXTENDS Naturals, Sequences, TLC, Json, IOUtils
 Trace == ndJsonDeserialize(IOEnv.TRACE_FILE)
 NTrace == Len(Trace)
 
-Reject(tid, line, clause) == PrintT(<<"REJECT", tid, line, clause>>)
+\* printed as one JSON string: TLC wraps long tuples over several lines
+Reject(tid, line, clause) ==
+  PrintT(ToJson([verdict |-> "REJECT", line |-> line, clause |-> clause]))
 Finish(lines, rejects) == PrintT(<<"DONE", lines, rejects>>)
 
 \* first failing clause of a sequence of <<name, bool>> pairs, "" if none
